@@ -1114,6 +1114,11 @@ def skymask(invvar, andmask, ormask=None, ngrow=2):
     redmonster = sdss_flagval('SPPIXMASK', 'REDMONSTER')
     # brightsky = sdss_flagval('SPPIXMASK', 'BRIGHTSKY')
     if ormask is not None:
+        #
+        # The flag values are unsigned 64-bit integers; the masks stored in
+        # spPlate files are signed, and NumPy refuses to mix the two.
+        #
+        ormask = ormask.astype(badskychi.dtype)
         badmask = badmask | ((ormask & badskychi) != 0)
         badmask = badmask | ((ormask & redmonster) != 0)
         # badmask = badmask | ((andmask & brightsky) != 0)
